@@ -12,7 +12,8 @@ CFG = {'level': 'exploration',
                'position must be refused by Hash1, HashDir and HashZip. 3e3 / 5e4 materialised trees (HashDir and DirFiles under 10 prefixes and 5 '
                'spellings of the directory, equal to HashZip of an archive/zip archive of the same entries), 2e3 / 3e4 archives with arbitrary entry '
                'names, 3e3 / 5e4 module zips from zip.Create whose HashZip must equal the formula over the entries and HashDir of the zip.Unzip '
-               'output under "path@version". Held-on-observed only.',
+               'output under "path@version". Held-on-observed only.'
+               ' Added after seeded changes: a read fault injected into one file of every set (Hash1 must fail, not hash the truncated content), a positional-lookup caller plus a snapshot comparison of the list handed to Hash1, and directory attribute bits on regular zip entries (the hash is over names and bytes only).',
  'level_note': 'Injectivity limit (DESIGN 5.19): that different (name, content) sets always give different summaries is only observable through '
                'the hash; the monitor refutes it on the generated neighbour pairs and cannot establish it. The argument for the rest is the formula '
                'check plus the refusal of newlines in names (the summary of newline-free names is uniquely parseable: 64 hex digits, two spaces, the '
